@@ -30,12 +30,13 @@ def norm(x):
     return repr(x)
 
 
-def differential(res, prefix, r, makers, n):
+def differential(res, prefix, r, makers, n, same_prob=0.4):
     """makers: {name: f(random.Random) -> (bus, generator, probe)}; probe() -> comparable final state."""
     from models.bus import run_interleaved
     names = sorted(makers)
     for t in range(n):
-        na, nb = r.choice(names), r.choice(names)
+        na = r.choice(names)
+        nb = na if r.random() < same_prob else r.choice(names)      # often the same library function / class on both buses
         sa, sb = r.getrandbits(40), r.getrandbits(40)
         solo = []
         for nm, sd in ((na, sa), (nb, sb)):
